@@ -473,7 +473,7 @@ class CaseResult:
         self.impl, self.model, self.stderr = [], [], ""
 
 
-def run_case(ctx, hcmd, dcmd, ops, env=None, timeout=120, crash_is_failure=True):
+def run_case(ctx, hcmd, dcmd, ops, env=None, timeout=120, crash_is_failure=True, cmp=None):
     r = CaseResult()
     text = "\n".join(ops) + "\n"
     r.impl, r.model, rc, r.stderr = ctx.run_pair(hcmd, dcmd, text, timeout=timeout, env=env)
@@ -483,20 +483,25 @@ def run_case(ctx, hcmd, dcmd, ops, env=None, timeout=120, crash_is_failure=True)
     if r.oracle:
         r.ok = False
     impl_cmp = [l.split(" !oracle")[0] for l in r.impl]
-    d = Ctx.first_diff(impl_cmp, r.model)
+    if cmp is not None:
+        # custom line comparison (e.g. toleranced fields): replace matching model lines by the impl text
+        model_cmp = [a if (a == b or cmp(a, b)) else b for a, b in zip(impl_cmp, r.model)] + r.model[len(impl_cmp):]
+        d = Ctx.first_diff(impl_cmp, model_cmp)
+    else:
+        d = Ctx.first_diff(impl_cmp, r.model)
     if d is not None:
         r.diff_at, r.ok = d, False
     return r
 
 
 def correspond(ctx, name, cases, hcmd, dcmd, classify, env=None, max_report=4, keep_prefix=1,
-               crash_counts=True, timeout=600):
+               crash_counts=True, timeout=600, cmp=None):
     """Run every case on implementation and model, compare, shrink and report failures.
     `classify(ops, result) -> (key, what)` names a concrete failing input for known-findings.
     Returns number of failing cases."""
     t = time.time()
     all_ops = [l for c in cases for l in c]
-    big = run_case(ctx, hcmd, dcmd, all_ops, env=env, timeout=timeout)
+    big = run_case(ctx, hcmd, dcmd, all_ops, env=env, timeout=timeout, cmp=cmp)
     ctx.count("traces_validated_against_impl", len(cases))
     ctx.count("ops_compared", len(all_ops))
     if big.ok:
@@ -504,7 +509,7 @@ def correspond(ctx, name, cases, hcmd, dcmd, classify, env=None, max_report=4, k
         return 0
     # something failed: run the cases one by one to find which
     def one(c):
-        return run_case(ctx, hcmd, dcmd, c, env=env, timeout=120)
+        return run_case(ctx, hcmd, dcmd, c, env=env, timeout=120, cmp=cmp)
     with ThreadPoolExecutor(max_workers=14) as ex:
         results = list(ex.map(one, cases))
     failing = [(c, r) for c, r in zip(cases, results) if not r.ok]
@@ -517,7 +522,7 @@ def correspond(ctx, name, cases, hcmd, dcmd, classify, env=None, max_report=4, k
         def fails(ops):
             return not run_case(ctx, hcmd, dcmd, ops, env=env, timeout=60).ok
         small = shrink_ops(c, fails, keep_prefix=keep_prefix) if len(c) > keep_prefix + 1 else c
-        rs = run_case(ctx, hcmd, dcmd, small, env=env, timeout=60)
+        rs = run_case(ctx, hcmd, dcmd, small, env=env, timeout=60, cmp=cmp)
         if rs.ok:
             small, rs = c, r
         key, what = classify(small, rs)
